@@ -251,8 +251,73 @@ STRENGTHENED5 = {
 }
 
 NEEDS6 = {
+ "C01/a": "Timer::set_keep_alive() overwrites a running retransmission timer: one-octet unacknowledged tail lost, application calls set_keep_alive() before the RTO - the keep-alive's dummy octet is accepted as the lost data octet",
+ "C01/b": "TcpRepr::parse gates checksum verification on caps.tcp.tx() instead of rx(): with Checksum::Rx (device computes on transmit only) corrupted segments are accepted",
+ "C02/a": "Socket::reset() no longer re-initialises the timer: socket reused by connect() while/after TIME-WAIT inherits Timer::Close - no retransmission timer, later silently reset in ESTABLISHED",
+ "C02/b": "a rate-limited neighbor lookup re-arms the cache's global silence: two sockets waiting for the same neighbor with retry timers out of phase - no ARP request / solicitation is ever sent again",
+ "C03/a": "6LoWPAN dispatch `sent_bytes += frag1_size`: a fragmented reply started in the poll right after another one finished (fragmenter finished but not yet reset) never completes; interface wedged",
+ "C03/b": "get_source_address_ipv6 checks ip_addrs.is_empty() instead of 'no IPv6 address': IPv4-only interface panics on an ICMPv6 echo / unknown next header sent to ff02::1",
+ "C04/a": "window_end falls back to the full window when nothing was advertised yet: data overtaking the socket's own SYN-ACK (guessed ISS) is accepted in SYN-RECEIVED",
+ "C04/b": "(SynSent, Syn) arm re-records the SYN window as scaled_window(): with window scaling and a >64 KiB buffer a segment beyond the 65535 advertised in the SYN, queued right behind the SYN-ACK, is accepted",
+ "C05/a": "peer MSS only learned from SYN|ACK, not from a bare crossing SYN: simultaneous open with peer MSS < 536 - data segments of 536 octets",
+ "C05/b": "scaled_window() uses shift 0 in SYN-SENT/SYN-RECEIVED: a bare ACK sent from SYN-RECEIVED (keep-alive answered before the handshake completes) carries an unscaled window, > buffer once the peer scales it",
+ "C06/a": "NDISC RedirectedHeader padding range `opt_len + (8 - opt_len % 8)`: emit panics when the quoted packet length is a multiple of 8",
+ "C06/b": "DhcpOptionWriter::emit applies the 255 limit to kind+length+data: options with 254 or 255 data octets are refused although buffer_len() counts them",
+ "C07/a": "DNS parse_name checks the pointer against the whole message length hoisted out of the loop while slicing the shrunken remainder: three pointer hops (forward, back, forward) panic",
+ "C07/b": "Icmpv6 check_len admits 24-octet MLDv1 queries while mld.rs reads the MLDv2 fields unconditionally: type 130 with exactly 24 octets panics in accessors / Repr::parse",
+ "C08/a": "first IPv4 fragment's checksum refresh gated on caps.ipv4.rx(): with Checksum::Tx the offset-0 fragment leaves with the checksum of the unfragmented header",
+ "C08/b": "is_link_local() widened to fe80::/10 (same as earlier C06/C20 seeds, found independently): 6LoWPAN elides address bits the transport checksum covered",
+ "C09/a": "PacketBuffer::enqueue `<=`: a datagram that exactly fits the head of the payload ring after the tail is padded is refused (ring 16: X(6) Y(8) in, X out, Z(6) dropped)",
+ "C09/b": "dispatch_ipv4_frag sets MF after fill_checksum: every middle fragment (3+ fragments) has a wrong header checksum",
+ "C10/a": "max_burst_size window clamp patched into the emitted TCP header after the checksum was filled: wrong TCP checksum whenever the clamp applies",
+ "C10/b": "tcp dispatch exempts SYN-SENT from 'source address no longer owned': interface renumbered while a SYN is unanswered - retransmitted SYNs leave from an address the interface does not own",
+ "C11/a": "(SynReceived, Rst) arm restores the listen endpoint with the port only: a listener bound to (A1, port) accepts a SYN to A2 after one refused handshake",
+ "C11/b": "IPHC dst_context_id() reads the source nibble: with two address contexts a datagram for 'context-1 prefix + our IID' (foreign) is expanded with context 0 and delivered",
+ "C12/a": "fragmenter-busy guard hoisted out of the per-socket loop in socket_egress: second socket's oversized datagram in the same egress pass is silently dropped (same change delivered as C20/b for 6LoWPAN)",
+ "C12/b": "poll_at merges 'fragments pending' with Option::map: returns None with all sockets idle while fragments wait - an application following poll_at never completes the datagram",
+ "C13/a": "dns dispatch skips a query whose retransmit_at is in the future before the server time-out is handled: at the 10 s time-out poll_at stays 'now' for 5 s (spin), fail-over delayed",
+ "C13/b": "dhcp parse_ack validates T1 against the lease instead of T2: ACK with T2 < T1 < lease accepted, renew_at > rebind_at - poll_at stuck at rebind_at from T2 to T1",
+ "C14/a": "enqueue_with_infallible takes the metadata slot only after the closure ran: with metadata full the refused call runs the closure and advances the payload ring (orphan octets)",
+ "C14/b": "enqueue_with_infallible commits all max_size octets via enqueue_many while metadata records the returned size: shrinking callbacks leak payload space",
+ "C15/a": "add_then_remove_front shortcut pops the first contig without shifting the rest when the in-order segment overshoots the first range: remaining ranges reported too far out",
+ "C15/b": "add_then_remove_front's full-tracker fallback uses shrink_hole_to: with exactly MAX disjoint ranges an in-order insertion short of the first hole turns hole octets into data",
+ "C16/a": "Cache::fill() re-opens the global discovery rate limiter: any learned neighbor lets a second request out within the silent second",
+ "C16/b": "NDISC accepted with any hop limit (outer guard removed; inner check only covers RAs): forwarded NA/NS with hop limit != 255 overwrites an on-link neighbour's address",
+ "C17/a": "zero-window-probe start/stop pair overwrites the TIME-WAIT timer: final segment acknowledging data+FIN with window 0 - TIME-WAIT never ends",
+ "C17/b": "TIME-WAIT timer restart moved before the out-of-window RST check: a stray RST re-arms the 10 s timer",
+ "C18/a": "renewal ACK can no longer shorten the lease (`expires_at.max(..)`): renewal answered with a shorter lease - address reported past the new expiry",
+ "C18/b": "max_lease_duration cap folded into the Option chain: an ACK without lease option gets the 120 s default uncapped",
+ "C19/a": "answer-record cursor advanced only at the end of the loop body: a foreign-owner record in front of the wanted record is re-parsed for ever, query fails",
+ "C19/b": "back-off not reset at server fail-over: later servers get one datagram and no retransmission inside their window",
+ "C20/a": "NHC-UDP emitter handed the whole rest of the fragmentation buffer: UDP checksum covers stale octets of an earlier longer datagram when the datagram is fragmented",
+ "C20/b": "fragmenter-busy guard hoisted out of the per-socket loop in socket_egress: second socket's fragmented 6LoWPAN datagram in the same pass is silently dropped",
 }
 STRENGTHENED6 = {
+ "C01/a": "C01 missed it; tcp2 deviation SetKeepAlive (set_keep_alive in mid-connection) and a 41-octet stream over MSS 40",
+ "C01/b": "C01 missed it; tcp2 configurations with transmit-checksum-offloading devices (checksum.tcp = Rx) under corruption",
+ "C02/b": "C02 missed it; tcp2 configurations with an auxiliary UDP socket on the same interface, retry timers 0.4 s out of phase",
+ "C03/a": "C03 missed it; see DESIGN.md (fragmented replies in consecutive polls on 802.15.4, probe with a fragmented reply)",
+ "C03/b": "C03 missed it; see DESIGN.md (IPv4-only / IPv6-only / address-less base states)",
+ "C04/a": "C04 missed it; early-data configurations (segment overtakes the socket's own SYN-ACK, ISS from a twin run)",
+ "C04/b": "C04 missed it; early-data client configuration beyond the SYN's 65535 window plus a filler event ending at the early segment",
+ "C05/a": "C05 missed it; simultaneous-open configurations in the adversarial-peer sender BFS",
+ "C05/b": "C05 missed it; keep-alive-like probe answered from SYN-RECEIVED with a >64 KiB buffer and window scaling",
+ "C06/b": "C06 missed it at quick tier (boundary lengths were thorough-only); DHCP / NDISC / IPv6-option / DNS length boundaries now in both tiers",
+ "C08/a": "C08 missed it; fragmented IPv4 datagrams under every checksum-capability value",
+ "C08/b": "C08 missed it; fe80::/10 addresses outside fe80::/64 judged after an independent RFC 6282 decompression",
+ "C09/a": "C09 missed it; PacketBuffer placement rule as oracle on 16/24-octet payload rings",
+ "C09/b": "C09 missed it; IPv4 header checksum of every fragment verified, 3+-fragment datagrams in the tight-link alphabets",
+ "C10/b": "C10 missed it; renumbering scenarios (address replaced/removed in the middle of six situations)",
+ "C11/a": "C11 missed it; TCP listener histories of up to 3/4 frames on a two-address interface",
+ "C11/b": "C11 missed it; 6LoWPAN address-context table (SCI, DCI) with checksum-equivalent prefixes / rx checksum off",
+ "C12/b": "C12 missed it; transmit sweeps repeated under a poll_at-following discipline",
+ "C13/b": "C13 missed it; DHCP answers with explicit inconsistent T1/T2 in the served alphabet",
+ "C16/b": "C16 missed it; forwarded (hop limit != 255) and malformed NDISC messages announcing another hardware address",
+ "C17/a": "C17 missed it; FIN segments advertising window 0",
+ "C17/b": "C17 missed it; exploration started in TIME-WAIT with 7 s clock steps, RST never restarts 2MSL in the model",
+ "C18/b": "C18 missed it; reference lease = min(lease option or default, max_lease_duration)",
+ "C19/a": "C19 noticed it only as a failed positive control (machinery error); foreign-record sweep judged as a clause",
+ "C20/b": "C20 missed it; two sockets queueing before the same poll",
 }
 
 def next_letter(prop, used):
